@@ -318,14 +318,14 @@ func runC10(c *Ctx) {
 	loadGate(c, "R10.4")
 
 	// ---------- R10.5 the bytes handed to the store belong to the caller
-	c.Rule("R10.5", "E3", "MarshalResource / Encrypt return bytes that share no storage with anything the marshaler keeps (a pooled buffer, a field, a global): what an acknowledged write put into the store cannot be overwritten by the next call", 3)
+	c.Rule("R10.5", "E3", "MarshalResource / Encrypt / Compress return bytes that share no storage with anything the marshaler keeps (a pooled buffer, a field, a global): what an acknowledged write put into the store cannot be overwritten by the next call", 3)
 
 	for _, f := range p.AllOwnFuncs() {
 		if f.Parent() != nil || f.Signature.Recv() == nil || funcPkg(f) == nil || !strings.HasPrefix(funcPkg(f).Pkg.Path(), Mod+"pkg/state/impl/store") {
 			continue
 		}
 
-		if f.Name() != "MarshalResource" && f.Name() != "Encrypt" {
+		if f.Name() != "MarshalResource" && f.Name() != "Encrypt" && f.Name() != "Compress" {
 			continue
 		}
 
